@@ -141,6 +141,7 @@ func checkC01(t failer, c *codec, m interface{}) {
 		violation(t, "C01", c.name, "C01:"+c.name+":decode-differs-from-rfc-layout", cc,
 			"%s: decoding RFC-laid-out bytes yields other field values\n got =%s\n want=%s", c.name, js(back), js(exp))
 	}
+	checkDirtyTarget(t, "C01", c, want, back, cc)
 	ev.Class(c.name + ":ok")
 	if c.nontrivial(m) {
 		ev.NonTrivial(c.name, cc)
